@@ -554,6 +554,20 @@ def _fam_qp_indefinite(rng, n, spec):
     return f, g, dict(convex=False, complex_safe=False, unbounded_below=True)
 
 
+def _fam_underflow_valley(rng, n, spec):
+    """0.5 sum w_i x_i^2 + 0.25 sum w_i x_i^4 with weights from 1e8..1e16 down to 1e-8..1e-31: minimised at the origin, which a run with
+    gtol = 0 approaches until objective, gradient and the squares of the gradient components underflow."""
+    w = np.geomspace(float(10.0 ** rng.integers(8, 17)), float(10.0 ** -rng.integers(8, 32)), n)
+
+    def f(x):
+        return float(0.5 * np.sum(w * x * x) + 0.25 * np.sum(w * x ** 4))
+
+    def g(x):
+        return w * x + w * x ** 3
+
+    return f, g, dict(convex=True, complex_safe=False)
+
+
 def _fam_quantized(rng, n, spec):
     """A smooth QP reported with finite resolution (plateaus): trial values can tie with the start value exactly."""
     A = rand_spd(rng, n, float(spec.get("cond", 30.0)))
@@ -592,6 +606,7 @@ _FAMILIES = {
     "sphere": _fam_sphere,
     "flat": _fam_flat,
     "qp_indefinite": _fam_qp_indefinite,
+    "underflow_valley": _fam_underflow_valley,
     "qp_subnormal": _fam_qp_subnormal,
     "quantized": _fam_quantized,
 }
